@@ -2,7 +2,10 @@
 
 package fox
 
-import "sync/atomic"
+import (
+	"sync/atomic"
+	"unsafe"
+)
 
 // Verification points: named places in the critical sections of the router where an external
 // verification harness may observe or pause the calling goroutine. They exist only with the
@@ -51,32 +54,58 @@ func VerifTreeInfo(r *Router) (size int, maxParams, depth uint32) {
 	return t.size, t.maxParams, t.depth
 }
 
-// VerifNode is a read-only copy of one radix node (verification builds only).
+// VerifNode is a read-only copy of one radix node (verification builds only). Addr and Kids identify the node and
+// its children slice, so that the sharing between tree versions can be observed.
 type VerifNode struct {
 	Key      string
 	Route    string // pattern registered at this node, "" if none
 	Children []VerifNode
+	Addr     uintptr
+	Kids     uintptr // 0 when the node has no children
 }
 
-// VerifDump copies the published tree of every method into plain values.
-func VerifDump(r *Router) map[string]VerifNode {
-	t := r.getRoot()
-	out := make(map[string]VerifNode, len(t.root))
+func verifCopyRoots(rs roots) map[string]VerifNode {
+	out := make(map[string]VerifNode, len(rs))
 	var cp func(n *node) VerifNode
 	cp = func(n *node) VerifNode {
-		v := VerifNode{Key: n.key}
+		v := VerifNode{Key: n.key, Addr: uintptr(unsafe.Pointer(n))}
 		if n.route != nil {
 			v.Route = n.route.pattern
+		}
+		if len(n.children) > 0 {
+			v.Kids = uintptr(unsafe.Pointer(unsafe.SliceData(n.children)))
 		}
 		for _, c := range n.children {
 			v.Children = append(v.Children, cp(c))
 		}
 		return v
 	}
-	for _, root := range t.root {
+	for _, root := range rs {
+		if root == nil {
+			continue
+		}
 		v := cp(root)
 		v.Key = "" // the key of a root node is the method
 		out[root.key] = v
 	}
 	return out
+}
+
+// VerifDump copies the published tree of every method into plain values.
+func VerifDump(r *Router) map[string]VerifNode {
+	return verifCopyRoots(r.getRoot().root)
+}
+
+// VerifDumpTxn copies the tree a transaction works on: the uncommitted tree of a write transaction, the frozen tree
+// of a read-only transaction or of a Txn.Snapshot. It returns nil for a transaction that is finished.
+func VerifDumpTxn(txn *Txn) map[string]VerifNode {
+	if txn.rootTxn == nil {
+		return nil
+	}
+	return verifCopyRoots(txn.rootTxn.root)
+}
+
+// VerifDumpIter copies the tree an iterator was created on.
+func VerifDumpIter(it Iter) map[string]VerifNode {
+	return verifCopyRoots(it.root)
 }
